@@ -585,6 +585,33 @@ func propC07(w *World, r *Report) {
 			got := e.termOf(a.Val).String()
 			r.Check(got == kk.want, "K2", kk.fn.Name()+": stored difference is "+kk.what, w.InstrPos(a.Instr), got)
 			r.Check(a.Frame == ssa.Value(kk.fn.Params[3]), "K2", kk.fn.Name()+": result goes to the third frame argument at the same position", w.InstrPos(a.Instr), frameName(e, a.Frame))
+			// the difference is stored for EVERY interior pixel: the diff frames are re-used ring slots, a pixel that is
+			// skipped keeps the difference of two frames ago
+			var dataGuards []string
+			for _, g := range e.guardsOf(a.Instr.Block()) {
+				gs := g.String()
+				if isRangeLoopGuard(g) || g.If.Parent() != kk.fn {
+					continue
+				}
+				if strings.Contains(gs, "cptvframe.Frame.Pix") || strings.Contains(gs, T) {
+					dataGuards = append(dataGuards, gs)
+				}
+			}
+			// ... and no path through the loop body comes round to the next pixel without passing the store (a && b skips
+			// have no single dominating guard)
+			skip := ""
+			if ph, ok := a.Col.(*ssa.Phi); ok {
+				h := ph.Block()
+				for _, body := range h.Succs {
+					if !h.Dominates(body) || !reaches(body, h) {
+						continue // the exit edge
+					}
+					if by, at := canBypass(body, a.Instr.Block(), h); by && at == h {
+						skip = "the loop continues with the next pixel without storing (via block " + fmt.Sprint(at.Index) + ")"
+					}
+				}
+			}
+			r.Check(len(dataGuards) == 0 && skip == "", "K2", kk.fn.Name()+": the difference is stored for every interior pixel (no data-dependent skip)", w.InstrPos(a.Instr), strings.Join(dataGuards, " ; ")+skip)
 		}
 	}
 	checkThresholdInit(w, r, d, k, "K2")
